@@ -172,7 +172,7 @@ def parse_programs(out):
 
 
 # (cfg name, program sequence of MC_Coroutine.tla, SemInit, CondLogic)
-QUICK = [("MC_quick.cfg", "ProgQuick", "Zeros", "Zeros")]
+QUICK = [("MC_quick.cfg", "ProgQuick", "Zeros", "Zeros"), ("MC_quick2.cfg", "ProgQuick2", "Ones", "Ones")]
 THOROUGH = [("MC_t%d.cfg" % i, "ProgT%d" % i, "Ones" if i == 9 else "Zeros", "Ones" if i == 9 else "Zeros") for i in range(1, 10)]
 # as-found configurations: the model of the code BEFORE the repairs must violate the property (non-vacuity)
 ASFOUND_QUICK = [("MC_asfound_wake.cfg", "ProgAsFoundWake", dict(asfound_wake=True), "NoLostWakeup"),
